@@ -19,5 +19,15 @@ PROPS = {
                  'Python int is unbounded; list displays do not alias']),
 }
 
+PROPS['C17'] = dict(
+    title='Popularity skew is linear with the requested ratio',
+    functions=[GS + 'create_linear_distribution'],
+    lemmas=['C17/sum-positive', 'C17/scaled-sum'],
+    level_text='postcondition (positive, sums to one, arithmetic progression, last = skew*first, n=1 gives [1]) proved over the reals for every n >= 1 and skew > 0 by a loop invariant and two induction lemmas; floating-point rounding is outside the contract and only covered by the labelled bounded grid check',
+    harness=True, bound='n <= 40 (quick) / 200 (thorough), 18 fixed skews + seeded random skews; tolerance 1e-9 relative',
+    trusted=['T10 numpy: np.sum is the mathematical sum; array / scalar divides elementwise',
+             'float treated as mathematical real (DESIGN 3.1); induction principle of the lemma engine'],
+    assumptions=['floating point idealised as reals; the bounded grid check is the only evidence about rounding',
+                 'Python int is unbounded'])
 NOT_APPLICABLE = {}
 NOTES = 'see DESIGN.md; ./check Cxx --tier quick|thorough; exit 0 held / 1 VIOLATION / 2 undecided / 3 checker error'
